@@ -174,6 +174,9 @@ func CollFamilies() []CollSpec {
 		{Name: "VERYLONG", Free: []string{rep('x', 900) + "a", rep('x', 900) + "A", rep('x', 900) + "b", rep('x', 1100) + "c", "short"}, Probes: []string{rep('x', 900)}},
 		{Name: "CJKLONG", Free: []string{"日本", "日本語", P16 + "a", P16 + "A", P16 + "b", P16 + "ab", "日", "本"}, Probes: []string{P16, "語", P16 + "B"}},
 		{Name: "VALS", Free: []string{"a", "A", "á", "ab", P16 + "x"}, NVals: 2},
+		// strings without any primary weight (lone combining marks) next to the empty string: their sort keys differ from the
+		// empty string's only behind its leading separators; probes that are completely ignorable (equal sort key to "")
+		{Name: "IGNORABLE", Free: []string{"", "\u0301", "\u0301\u0300", "a", "\u0300", "a\u0301"}, Probes: []string{"\u00ad", "a\u00ad", "\u0302", "\u0300\u0301"}},
 	}
 }
 
@@ -207,6 +210,12 @@ func CollationRegistry(prop, tier string) []UniverseDef {
 			}
 		}
 		return out
+	}
+	if prop == "C14" || prop == "C15" {
+		// Prefix sequences of collation trees take part in the sequence / read-only properties as well
+		for _, sp := range CollPrefixFamilies() {
+			add(sp, und, "string", false)
+		}
 	}
 	fams := CollFamilies()
 	for _, sp := range fams {
